@@ -122,7 +122,9 @@ def run(db, cx):
         C + "Stepper::kill_active"}
     for fld in ("num_initializers", "num_vacancies", "num_active", "num_alive", "num_generated",
                 "num_secondaries", "num_pending"):
-        w = field_writers(db, CNT + fld)
+        # the optical loop owns a separate CoreStateCounters instance inside optical::CoreState
+        w = field_writers(db, CNT + fld, skip_path=lambda p: any("celeritas::optical::" in x
+                                                              for x in p.get("chain", [])))
         if not w:
             continue
         check_owners(cx, "C02.3-ownership", "CoreStateCounters::" + fld, w, counter_owners,
